@@ -148,10 +148,45 @@ def e2e_campaign(out, tier):
             "e2e_input_distribution": st}
 
 
+def panic_stage(out, tier):
+    """A task that PANICS inside the worker pool (chain 0 <- 1 <- 2 and a free node 3): however the code deals with the crash, the
+    dependants of the crashed node never start and the node is never reported successful.  Model-free oracle on the harness output
+    (Walker.v: a dependant starts only after its dependency's completion with success, and a crashed task has no such completion)."""
+    import subprocess
+    h = vlib.build_harness("walker", deps=())
+    if not h:
+        return 0
+    n = 0
+    for W in (1, 2, 4):
+        for ff in (0, 1):
+            for rep in range(2 if tier == "quick" else 20):
+                try:
+                    p = subprocess.run([h, "panic", str(W), str(ff)], stdout=subprocess.PIPE, stderr=subprocess.PIPE, text=True, timeout=60)
+                    lines, rc = p.stdout.split("\n"), p.returncode
+                except subprocess.TimeoutExpired:
+                    lines, rc = ["hang"], -1
+                n += 1
+                started = [int(l.split()[1]) for l in lines if l.startswith("started ")]
+                comp = dict((int(l.split()[1]), l.split()[2] == "success=true") for l in lines if l.startswith("completion "))
+                desc = {"graph": "0 <- 1 <- 2, 3 free; node 0's task panics", "num_workers": W, "fail_fast": bool(ff), "exit": rc, "harness_output": lines[:20]}
+                if 1 in started or 2 in started:
+                    out.violation("a dependant started although the task of its dependency crashed (panic inside the pool): started %s, "
+                                  "num_workers=%d fail_fast=%d" % (started, W, ff), desc)
+                    return n
+                if comp.get(0):
+                    out.violation("a crashed task (panic inside the pool) is reported as a successful completion, num_workers=%d fail_fast=%d" % (W, ff), desc)
+                    return n
+                if "hang" in lines:
+                    out.violation("the walk never returns after a task crashed inside the pool, num_workers=%d fail_fast=%d" % (W, ff), desc)
+                    return n
+    return n
+
+
 def run(out, tier):
     einfo = e2e_campaign(out, tier)
     info, scheds, extra = walkerlib.gated_campaign(out, "C03", tier, "order")
     sinfo = walkerlib.stress_campaign(out, "C03", tier, "order", race=(tier == "thorough"))
+    out.cov["crashing_task_runs"] = panic_stage(out, tier)
     samples = []
     for s in scheds[:400:150]:
         tr = extra.get("traces", {}).get(s["id"])
@@ -181,5 +216,10 @@ def replay(out, path):
     rp = json.load(open(path))["replay"]
     if "oracle" in rp and "ops" in rp:
         print(json.dumps({k: rp.get(k) for k in ("oracle", "build", "num_workers", "description", "trace")}, indent=1)[:4000])
+        return
+    if "harness_output" in rp:
+        print(json.dumps(rp, indent=1)[:3000])
+        n0 = len(out.violations) if hasattr(out, "violations") else 0
+        panic_stage(out, "quick")
         return
     walkerlib.replay(out, "C03", path)
